@@ -1,0 +1,23 @@
+//go:build verif
+
+package future
+
+// VerifDone reports whether the future's done channel is closed (Result/Wait would not block).
+func (f *Future[T]) VerifDone() bool {
+	select {
+	case <-f.done:
+		return true
+	default:
+		return false
+	}
+}
+
+// VerifClosed reports the closed flag.
+func (f *Future[T]) VerifClosed() bool { return f.closed.Load() }
+
+// VerifForwarders returns the number of registered forwarders.
+func (f *Future[T]) VerifForwarders() int {
+	f.mu.Lock()
+	defer f.mu.Unlock()
+	return len(f.forwarders)
+}
